@@ -41,7 +41,7 @@ MODELS = ["OptiVerif.Model.Fbg", "OptiVerif.Model.NumList", "OptiVerif.Model.Fib
           "OptiVerif.Gen.Fbg"]
 RULE = ("cases = designs (14 resolution branches: fc|landa_D x dneff|vdneff|kL-only x kL|L|N; kL in [0.1,8], vdneff in [1e-5,1e-3], "
         "F in [-20,20] or 0, 4 built-in profiles + 3 families of positive smooth callables, 1/2 polarisations, fs in 20..400 GS/s, "
-        "centre on/off the frequency grid, filtfilt on/off, field dtype complex128 / float64 / int64 / bool, n=2^8 (quick) .. 2^12), each with 4 probes of the captured RHS at "
+        "centre on/off the frequency grid, filtfilt on/off, field dtype complex128 / float64 / int64 / bool, the grid configured through gv(sps,R) / gv(sps,fs) / gv(R,fs) with non-integer fs/R / gv(fs) / gv(R,fs,N) with N*sps != input length, n=2^8 (quick) .. 2^12), each with 4 probes of the captured RHS at "
         "random (z,y) incl. z=+-1/2 and 0; route sextuples (same grating through the six routes); incomplete/ill-typed "
         "specifications; out-of-band centre; histories: the same grating and input length under 3-4 sampling rates in sequence "
         "inside one process (and two gratings recurring across cases at different rates), each step checked against the uniform "
@@ -271,6 +271,41 @@ def gen_cases(rng, tier):
     return cases
 
 
+# ------------------------------------------------------------------------------------------------ how the grid is configured
+GVKINDS = ["sps,R", "sps,R", "sps,fs", "R,fs", "fs", "R,fs,N"]
+
+
+def _gv_kind(case, step=None):
+    """which arguments of gv(...) set the sampling rate: (sps,R), (sps,fs), (R,fs) with a NON-integer fs/R, fs alone, or (R,fs)
+    with a slot count N in force whose N*sps differs from the input length — from the case's own seed (recorded with the case)"""
+    if case.get("gvkind"):
+        return case["gvkind"]
+    if case["kind"] == "design":
+        return GVKINDS[(case["seed"] // 7) % 6]
+    if case["kind"] == "history":
+        return GVKINDS[(case["seed"] // 7 + 2 * (step or 0) + 1) % 6]
+    return "sps,R"
+
+
+def _gv_config(sps, R, kind, seed):
+    """(keyword arguments for gv, the sampling rate they ask for)"""
+    fs = sps * R
+    frac = [0.3, -0.2, 0.4][seed % 3]
+    if kind == "sps,fs":
+        return {"sps": sps, "fs": fs}, fs
+    if kind == "R,fs":
+        return {"R": fs / (sps + frac), "fs": fs}, fs
+    if kind == "fs":
+        return {"fs": fs}, fs
+    if kind == "R,fs,N":
+        return {"R": fs / (sps + frac), "fs": fs, "N": 96}, fs
+    return {"sps": sps, "R": R}, fs
+
+
+def _fs_of(case):
+    return case["sps"] * case["R"]
+
+
 # ------------------------------------------------------------------------------------------------ running the real code
 def _dtype_of(case):
     """sample dtype of the input field: complex fields mostly, but also REAL-dtype fields (float64 / int64 / bool: a real pulse, a
@@ -355,8 +390,9 @@ def run_impl(case):
         with warnings.catch_warnings():
             warnings.simplefilter("ignore")
             gv.clean()
-            gv(sps=case["sps"], R=case["R"])
-            res.update(fs=float(gv.fs), f0=float(gv.f0), c0=float(dev.c))
+            gkw, _ = _gv_config(case["sps"], case["R"], _gv_kind(case), case["seed"])
+            gv(**gkw)
+            res.update(fs=float(gv.fs), f0=float(gv.f0), c0=float(dev.c), gv_sps=int(gv.sps), gv_R=float(gv.R))
             a = _field(case)
             kind = case["kind"]
             if kind == "badtype":
@@ -384,12 +420,13 @@ def run_impl(case):
                 return res
             if kind == "history":
                 steps = []
-                for sps, R in case["seq"]:
+                for j, (sps, R) in enumerate(case["seq"]):
                     gv.clean()
-                    gv(sps=sps, R=R)
+                    gkw, want_fs = _gv_config(sps, R, _gv_kind(case, j), case["seed"])
+                    gv(**gkw)
                     xi = optical_signal(a, n_pol=case["npol"])
                     yi, H = _call_fbg(dev, xi, case["kw"], case["apo"], case["F"], case["filtfilt"])
-                    steps.append({"fs": float(gv.fs), "f0": float(gv.f0), "H": _cl(H),
+                    steps.append({"fs": float(gv.fs), "want_fs": float(want_fs), "gv": _gv_kind(case, j), "f0": float(gv.f0), "H": _cl(H),
                                   "finite": bool(np.all(np.isfinite(H)) and np.all(np.isfinite(yi.signal)))})
                 res.update(status="ok", steps=steps)
                 return res
@@ -485,7 +522,8 @@ def model_requests(case, res):
         return [f"fbg.resolve {enc_f(res['c0'])} {_spec(case['kw'])}"]
     if kind != "design" or res.get("status") not in ("ok", "err"):
         return []
-    c0, f0, fs = (enc_f(res[k]) for k in ("c0", "f0", "fs"))
+    c0, f0 = (enc_f(res[k]) for k in ("c0", "f0"))
+    fs = enc_f(_fs_of(case))          # the rate that was asked for, not what the library says it is
     spec = _spec(case["kw"])
     if res["status"] == "err":
         if not case.get("outofband"):
@@ -668,7 +706,7 @@ def oracle(case, res):
         return v
     if case.get("outofband"):
         return []      # outside the statement's quantifier (centre outside the simulated band); only the model tie applies
-    tag = f"(n={case['n']}, fs={case['sps'] * case['R']:.3g}, apo={case['apo']}, F={case['F']:.3g}, {case.get('kw') or case.get('kws')})"
+    tag = f"(n={case['n']}, fs={case['sps'] * case['R']:.3g} via gv({_gv_kind(case)}), apo={case['apo']}, F={case['F']:.3g}, {case.get('kw') or case.get('kws')})"
     if res.get("status") != "ok":
         return [("C16:raises", f"valid design raised {res.get('err')} {res.get('detail')} {tag}")]
     if kind != "history" and not res["finite"]:
@@ -676,14 +714,16 @@ def oracle(case, res):
     if kind == "history":
         lam_d, L, vd = _grating_of(case["kw"])
         for i, st in enumerate(res["steps"]):
-            where = f"step {i} of {[a * b for a, b in case['seq']]} (fs={st['fs']:.3g}) {tag}"
+            where = f"step {i} of {[a * b for a, b in case['seq']]} (fs={st['want_fs']:.3g} via gv({st['gv']})) {tag}"
+            if not (abs(st["fs"] - st["want_fs"]) <= 1e-9 * st["want_fs"]):
+                v.append(("C16:gv-fs", f"gv.fs = {st['fs']!r} but {st['want_fs']!r} was requested at {where}"))
             if not st["finite"]:
                 v.append(("C16:non-finite", f"NaN/inf at {where}"))
                 continue
             H = np.array([complex(p, q) for p, q in st["H"]])
             if not np.all(np.abs(H) <= 1 + 5e-3):
                 v.append(("C16:passivity", f"max|H| = {np.max(np.abs(H)):.6f} > 1 at {where}"))
-            refl = _uniform_reflectivity(case["n"], st["fs"], st["f0"], lam_d, L, vd)
+            refl = _uniform_reflectivity(case["n"], st["want_fs"], st["f0"], lam_d, L, vd)
             err = np.abs(np.abs(H) ** 2 - refl)
             if not np.all(err <= 1e-2):
                 kk = int(np.argmax(np.where(np.isnan(err), np.inf, err)))
@@ -698,6 +738,8 @@ def oracle(case, res):
                 v.append(("C16:routes", f"route {i} ({sorted(case['kws'][i])}) gives a response differing by {d:.3e} from route 0 {tag}"))
         return v
     n = case["n"]
+    if not (abs(res["fs"] - _fs_of(case)) <= 1e-9 * _fs_of(case)):
+        v.append(("C16:gv-fs", f"gv.fs = {res['fs']!r} but {_fs_of(case)!r} was requested {tag}"))
     H = np.array([complex(a, b) for a, b in res["H"]])
     a = np.array([[complex(p, q) for p, q in row] for row in res["inp"]])
     o = np.array([[complex(p, q) for p, q in row] for row in res["out"]])
@@ -751,7 +793,7 @@ def features(case, res):
     if case["kind"] == "design":
         f += ["dtype=" + _dtype_of(case), f"route={case['route']}/{case['length']}", "apo=" + _apo_name(case["apo"]), f"npol={case['npol']}", f"n={case['n']}",
               "chirp" if case["F"] else "no-chirp", "filtfilt" if case["filtfilt"] else "no-filtfilt",
-              "ongrid" if case["ongrid"] else "offgrid", f"fs={case['sps'] * case['R']:.0e}"]
+              "ongrid" if case["ongrid"] else "offgrid", f"fs={case['sps'] * case['R']:.0e}", "gv(" + _gv_kind(case) + ")"]
         if res.get("status") == "ok":
             f.append("nfev<100" if res["nfev"] < 100 else "nfev<400" if res["nfev"] < 400 else "nfev>=400")
     if case["kind"] == "spec":
